@@ -264,6 +264,7 @@ struct SimInBuf : std::streambuf
         Task* t = tl_task;
         if (!t || !W) return traits_type::eof();
         TSAN_IGNORE_SCOPE();
+        W->on_stop_exit(t);  // the reader is back for the next line: whatever it did with a consumed `stop` is done
         bool yielded_ready = false;
         for (;;)
         {
@@ -312,7 +313,15 @@ struct SimOutBuf : std::streambuf
             std::string line;
             line.swap(W->out_line);
             W->on_line_emitted(t, line);
-            yieldpoint(t, PT_OUT_LINE);
+            if (W->gui_wake)
+            {
+                // a line the GUI is waiting for: it may react before this thread runs on
+                W->gui_wake = false;
+                t->point_count[PT_OUT_LINE & 31]++;
+                task_yield(t, ST_READY, PT_OUT_LINE);
+            }
+            else
+                yieldpoint(t, PT_OUT_LINE);
         }
         else
         {
@@ -343,6 +352,13 @@ static SimOutBuf g_outbuf;
 
 // ---------------------------------------------------------------- clock ---
 int64_t W_clock_reads = 0;
+void clock_read_point()
+{
+    Task* t = tl_task;
+    if (!t || !W || t->kind != TK_SEARCH) return;
+    TSAN_IGNORE_SCOPE();
+    yieldpoint(t, PT_CLOCK);
+}
 int64_t sim_now_ns() { return W ? W->clock_ns : 0; }
 
 }  // namespace sim
@@ -353,6 +369,8 @@ extern "C"
     int64_t __wrap__ZNSt6chrono3_V212steady_clock3nowEv()
     {
         sim::W_clock_reads++;
+        // reading the clock is a system-call boundary: a preemption point for search threads
+        sim::clock_read_point();
         return 1'000'000'000LL + sim::sim_now_ns();
     }
     int64_t __wrap__ZNSt6chrono3_V212system_clock3nowEv()
@@ -725,6 +743,7 @@ void World::on_line_consumed(Task* t, const std::string& line)
                     case PT_GO_AFTER_RESET: w = "W3_after_reset"; break;
                     case PT_ITER_DONE: w = "W5_between_iterations"; break;
                     case PT_GO_BEFORE_BESTMOVE: w = "W6_before_bestmove"; break;
+                    case PT_CLOCK: w = "W7_in_clock_read"; break;
                     case PT_OUT_LINE:
                     case PT_OUT_PART:
                     case PT_IO_LOCK_BLOCKED: w = "W5_in_output"; break;
@@ -893,6 +912,7 @@ void World::on_line_emitted(Task* t, const std::string& line)
             return;
         }
         g->bestmove_seq = s;
+        gui_wake = true;
         g->bestmove = tok.size() > 1 ? tok[1] : "";
         g->bestmove_clock = clock_ns;
         g->nodes_at_bestmove = t->nodes;
@@ -918,6 +938,7 @@ void World::on_line_emitted(Task* t, const std::string& line)
             {
                 r.answered = true;
                 r.answer_seq = s;
+                gui_wake = true;
                 int64_t steps = tasks[0].yields - r.reader_yields_at_consume;
                 if (steps > counters["max_isready_reader_steps"]) counters["max_isready_reader_steps"] = steps;
                 // was it answered while a search was running?
@@ -1028,6 +1049,7 @@ void World::check_info(GoRec& g, const std::vector<std::string>& tok, const std:
     {
         g.watch_info_armed = false;
         g.watch_info_fired = true;
+        gui_wake = true;
     }
 }
 
@@ -1562,6 +1584,8 @@ RunResult run_world(const Script& script)
                     {
                         world.violation("C06", "no-bestmove-after-stop",
                                         "'" + g.line + "' stop consumed in window " + g.stop_window + ", " + std::to_string(st->nodes - g.nodes_at_stop) + " node visits later still no bestmove");
+                        if (g.infinite || g.depth >= 25 || g.movetime >= 1000000 || g.wtime >= 1000000)
+                            world.violation("C05", "go-never-answered-after-stop", "'" + g.line + "' in " + g.root.fen() + ": stopped in window " + g.stop_window + ", no bestmove (the harness had to abort the search)");
                         st->force_stop = true;
                     }
                 }
